@@ -122,7 +122,9 @@ def run_tum(F, n, mode, wkind, rkind, wd):
         os.remove(p)
     if wkind == "handle":
         with open(p, "w") as f:
-            fi.write_tum_trajectory_file(f, t)
+            # (confirm_overwrite is meaningless for a handle: no question,
+            # but the data must be written)
+            fi.write_tum_trajectory_file(f, t, confirm_overwrite=n % 2 == 1)
     else:
         fi.write_tum_trajectory_file(tgt, t)
     if rkind == "handle":
@@ -154,7 +156,7 @@ def run_kitti(F, n, mode, wkind, rkind, wd):
         os.remove(p)
     if wkind == "handle":
         with open(p, "w") as f:
-            fi.write_kitti_poses_file(f, t)
+            fi.write_kitti_poses_file(f, t, confirm_overwrite=n % 2 == 1)
     else:
         fi.write_kitti_poses_file(tgt, t)
     if rkind == "handle":
@@ -183,6 +185,8 @@ def run_result(F, n, with_traj, kind, wd, variant):
     r.add_np_array("error_array", L[:, 0].copy())
     r.add_np_array("timestamps", L[:, 1].copy())
     r.add_np_array("empty", np.array([]))
+    r.add_np_array("error_array.v2", L[:, 1].copy() * 0.5)
+    r.add_np_array("seconds.from.start", L[:, 0].copy())
     r.add_np_array("alignment_transformation_sim3",
                    latin(F, 4, 4, stride=3).copy())
     trajs = {}
@@ -193,13 +197,20 @@ def run_result(F, n, with_traj, kind, wd, variant):
             if kind == "traj" else make_path(F, max(1, n // 2), "quat")
         trajs["third"] = make_tum_traj(F, max(1, n // 3), "quat") \
             if kind == "traj" else make_path(F, 1, "se3")
+        # evo_ape / evo_rpe store the trajectories under their file names
+        trajs["gt.txt"] = trajs.pop("ref")
+        trajs["est.v2.tum"] = trajs.pop("est")
         for k, t in trajs.items():
             r.add_trajectory(k, t)
     p = os.path.join(wd, "r.zip")
     if os.path.exists(p):
         os.remove(p)
-    target = [p, pathlib.Path(p)][variant % 2]
-    fi.save_res_file(target, r)
+    if variant % 4 == 3:
+        with open(p, "wb") as fh:
+            fi.save_res_file(fh, r, confirm_overwrite=True)
+    else:
+        target = [p, pathlib.Path(p)][variant % 2]
+        fi.save_res_file(target, r)
     back = fi.load_res_file([pathlib.Path(p), p][variant % 2],
                             load_trajectories=True)
     msgs = []
